@@ -17,4 +17,5 @@ EXTRAS = [
     lambda rep, fb, tier: st.rule_axis(rep, fb, methods=("num", "offsets_and_flattened", "localindex"), floor=100),
     lambda rep, fb, tier: origin.rule_origin(rep, fb),
     lambda rep, fb, tier: records.rule_regular_length(rep, fb),
+    lambda rep, fb, tier: __import__("vf.rules.methodrules", fromlist=["x"]).rule_index_content(rep, fb),
 ]
